@@ -1050,8 +1050,17 @@ fn states_body(c: &mut Ctx, su: &Setup, thorough: bool) -> Result<(), Violation>
                         guard("tcp::abort", || s.abort())?;
                     }
                     "listen" => {
+                        // (now and then with port 0, which is no endpoint: must be refused without a trace)
+                        let bad_port = c.tape.draw(8) == 0;
                         let s = c.node.sockets.get_mut::<tcp::Socket>(c.h);
-                        let r = guard("tcp::listen", || s.listen(v_port))?;
+                        let r = guard("tcp::listen", || s.listen(if bad_port { 0 } else { v_port }))?;
+                        if bad_port {
+                            c.stats.inc("c17.api-invalid-endpoint");
+                            if r.is_ok() || c.sock().state() != before {
+                                return Err(viol("C17", "transition-acceptor", "C17.api/invalid-endpoint-accepted", format!("listen(0) returned {:?} in state {} and left the socket in {}", r, st_name(before), st_name(c.sock().state()))));
+                            }
+                            continue;
+                        }
                         if r.is_ok() && before != Listen {
                             conn = Conn { v_written: 0, app_read: 0, fin_accepted: false, was_listener: true, t_timewait: 0, t_last_seg: 0, irs: c.tape.draw(u32::MAX as u64) as u32, key: conn.key, closed_in_synrcvd: false };
                             c.iss_v = None;
@@ -1063,7 +1072,24 @@ fn states_body(c: &mut Ctx, su: &Setup, thorough: bool) -> Result<(), Violation>
                         let n = &mut c.node;
                         let cx = n.iface.context();
                         let s = n.sockets.get_mut::<tcp::Socket>(c.h);
-                        let r = guard("tcp::connect", || s.connect(cx, (p_addr, p_port), v_port))?;
+                        // (now and then with an unusable endpoint: remote port 0, local port 0, unspecified remote address)
+                        let bad = c.tape.draw(8);
+                        let r = match bad {
+                            0 => guard("tcp::connect", || s.connect(cx, (p_addr, 0), v_port))?,
+                            1 => guard("tcp::connect", || s.connect(cx, (p_addr, p_port), 0))?,
+                            2 => {
+                                let unspec = if su.v6 { smoltcp::wire::IpAddress::v6(0, 0, 0, 0, 0, 0, 0, 0) } else { smoltcp::wire::IpAddress::v4(0, 0, 0, 0) };
+                                guard("tcp::connect", || s.connect(cx, (unspec, p_port), v_port))?
+                            }
+                            _ => guard("tcp::connect", || s.connect(cx, (p_addr, p_port), v_port))?,
+                        };
+                        if bad <= 2 {
+                            c.stats.inc("c17.api-invalid-endpoint");
+                            if r.is_ok() || c.sock().state() != before {
+                                return Err(viol("C17", "transition-acceptor", "C17.api/invalid-endpoint-accepted", format!("connect with an unusable endpoint (case {}) returned {:?} in state {} and left the socket in {}", bad, r, st_name(before), st_name(c.sock().state()))));
+                            }
+                            continue;
+                        }
                         if r.is_ok() {
                             conn = Conn { v_written: 0, app_read: 0, fin_accepted: false, was_listener: false, t_timewait: 0, t_last_seg: 0, irs: c.tape.draw(u32::MAX as u64) as u32, key: conn.key, closed_in_synrcvd: false };
                             c.iss_v = None;
